@@ -107,7 +107,9 @@ def gen(rng, tier):
             'classes': sorted(classes), 'nthread': nthread,
             'npartition': None if rng.random() < 0.7 else rng.randrange(1, max(2, shape[0] // 3 + 1)),
             'coord': rng.choice([0, 0, 1, 2]), 'sort': rng.random() < 0.25, 'accumulate': rng.random() < 0.3, 'gseed': rng.randrange(1 << 20),
-            'sched': gen_sched(rng), 'poison': rng.choice(['A', 'B']), 'repeat': rng.random() < 0.3}
+            'sched': gen_sched(rng), 'poison': rng.choice(['A', 'B']), 'repeat': rng.random() < 0.3,
+            'layout': rng.choice(['C', 'C', 'C', 'cols-view', 'fortran', 'strided', 'readonly']),
+            'grid_layout': rng.choice(['C', 'C', 'padded-view', 'fortran'])}
 
 
 def sweep(tier):
@@ -241,10 +243,23 @@ def run(case):
             pexp[pexp >= ft(box)] -= ft(box)      # the documented wrap is a single period per call
             pexp[pexp < 0] += ft(box)
         modified = []
+        notsame = []
 
         def call(mod, nthread, npart):
-            grid = g0.copy()
-            p, w = pos.copy(), None if weights is None else weights.copy()
+            lay = case.get('layout', 'C')
+            glay = case.get('grid_layout', 'C')
+            if glay == 'padded-view':
+                # the real-space view of a padded in-place-FFT buffer
+                buf = np.full(shape[:2] + (shape[2] + 2,), -3, dtype=gt)
+                grid = buf[:, :, :shape[2]]
+                grid[...] = g0
+            elif glay == 'fortran':
+                grid = np.array(g0, order='F', copy=True)
+            else:
+                grid = g0.copy()
+            supplied = grid
+            p = H.with_layout(pos, lay, writable_needed=case['wrap'])
+            w = H.with_layout(weights, lay)
             r = mod.tsc_parallel(p, grid, box, weights=w, nthread=nthread, wrap=case['wrap'], npartition=npart,
                                  coord=case['coord'], sort=case.get('sort', False), offset=offset)
             if repeat:
@@ -252,6 +267,9 @@ def run(case):
                 # multi-tracer painting do): apart from the documented in-place wrap they must be as they were
                 r = mod.tsc_parallel(p, r, box, weights=w, nthread=nthread, wrap=case['wrap'], npartition=npart,
                                      coord=case['coord'], sort=case.get('sort', False), offset=offset)
+            # "accumulates into a supplied grid": the caller's own array holds the result, whatever is returned
+            if np.asarray(supplied).tobytes() != np.asarray(r).tobytes():
+                notsame.append(float(np.abs(np.asarray(supplied, dtype=np.float64) - np.asarray(r, dtype=np.float64)).max()))
             if not case.get('sort', False):
                 # (the wrap itself may round differently in compiled code, which subtracts a float64 box: a few ulp)
                 dp = np.abs(np.asarray(p, dtype=np.float64) - pexp.astype(np.float64))
@@ -281,6 +299,9 @@ def run(case):
             violation(out, 'raises:' + type(exc).__name__, 'tsc_parallel[sim]', repr(exc)[:300])
         else:
             _check(out, 'tsc_parallel[sim]', case, res, ref, g0.astype(np.float64), tolgrid, sumw)
+            if notsame and not out['violations']:
+                violation(out, 'supplied-grid-not-updated', 'tsc_parallel[sim]',
+                          {'grid_layout': case.get('grid_layout', 'C'), 'max_diff_to_returned': notsame[0]})
             if modified and not out['violations']:
                 violation(out, 'caller-arrays-modified', 'tsc_parallel[sim]', 'positions / weights differ from what was passed (beyond the documented wrap)')
             out['events'].append(['sim', list(shape), round(float(np.asarray(res, dtype=np.float64).sum()), 4), summ['regions']])
@@ -288,8 +309,12 @@ def run(case):
         from abacusnbody.analysis import tsc as rtsc
         try:
             del modified[:]
+            del notsame[:]
             got = call(rtsc, 1, None)
             _check(out, 'tsc_parallel[compiled,nthread=1]', case, got, ref, g0.astype(np.float64), tolgrid, sumw)
+            if notsame and not out['violations']:
+                violation(out, 'supplied-grid-not-updated', 'tsc_parallel[compiled,nthread=1]',
+                          {'grid_layout': case.get('grid_layout', 'C'), 'max_diff_to_returned': notsame[0]})
             if modified and not out['violations']:
                 violation(out, 'caller-arrays-modified', 'tsc_parallel[compiled,nthread=1]', 'positions / weights differ from what was passed (beyond the documented wrap)')
             if res is not None and exc is None:
@@ -332,6 +357,10 @@ def shrink(case):
         yield dict(c, accumulate=False)
     if case.get('repeat'):
         yield dict(c, repeat=False)
+    if case.get('layout', 'C') != 'C':
+        yield dict(c, layout='C')
+    if case.get('grid_layout', 'C') != 'C':
+        yield dict(c, grid_layout='C')
     if case['wrap']:
         yield dict(c, wrap=False)
     if case['nthread'] != 1:
